@@ -41,8 +41,13 @@ def failures_of(res):
 
 
 def safe_dump(text):
+    """AST dump, or None when the text is not valid Python.  `compile` is used on top of `ast.parse`
+    because some errors ('await' outside async function, 'yield' inside a list comprehension,
+    'return' outside function, nonlocal/global misuse) are raised by the compiler only."""
     try:
-        return ast.dump(ast.parse(_nobom(text)))
+        tree = ast.parse(_nobom(text))
+        compile(_nobom(text), "<c16-source>", "exec", dont_inherit=True)
+        return ast.dump(tree)
     except (SyntaxError, ValueError):
         return None
 
@@ -317,6 +322,15 @@ def classify_s1_add_ignores(before, first):
 def classify_s1_autofix(before, first):
     lines = pylines(before)
     dels = first["del"]
+    if first["add"] and any("(yield " in a for a in first["add"]) and "impure async call" in str(first.get("error")):
+        try:
+            tree = ast.parse(_nobom(before))
+        except SyntaxError:
+            tree = None
+        if tree is not None:
+            for node in ast.walk(tree):
+                if isinstance(node, (ast.ListComp, ast.SetComp, ast.DictComp, ast.GeneratorExp, ast.Lambda)) and node.lineno <= dels[-1] and getattr(node, "end_lineno", node.lineno) >= dels[0]:
+                    return "yield-inserted-inside-comprehension-or-lambda"
     if first["add"] and dels and dels[0] - 1 < len(lines):
         old_line = lines[dels[0] - 1]
         if old_line.startswith("\t") and first["add"][0].startswith(" "):
@@ -700,6 +714,12 @@ class Judge:
             return
         if len(olds) == 1 and len(news) == 1:
             o, n = minimal_expr_pair(olds[0], news[0])
+            if code in ("use_fstrings", "too_many_positional_args") and not (isinstance(o, ast.expr) and isinstance(n, ast.expr)):
+                # these fixes rewrite ONE expression; if the smallest differing pair is a whole
+                # statement, something else in it changed as well (decorators, other fields)
+                fail("autofix:%s:more-than-the-expression-changed" % code, "%s: `%s` -> `%s`" % (name, ast.unparse(olds[0])[:200], ast.unparse(news[0])[:200]),
+                     file=name, before=old_text, after=new_text)
+                return
             comparable, equal, detail = eval_equal(old_text, o, n)
             if comparable and not equal:
                 fail("autofix:%s:replacement-evaluates-differently" % code, "%s: `%s` -> `%s`: %s" % (name, ast.unparse(o), ast.unparse(n), detail),
